@@ -22,6 +22,9 @@ def run_one(prop: str, tier: str, replay: str | None = None) -> int:
         _common.THOROUGH = tier == "thorough"
         prog = model.Program()
         mod.run(prog, rep, tier)
+        from .rules import wellformed as _wf
+
+        _wf.run(prog, rep, prop)
         if replay:
             want = json.load(open(replay))["key"]
             hits = [o for o in rep.obligations if o.key == want]
